@@ -110,6 +110,38 @@ def _check_submodule_path(path: bytes, validator: Callable[[bytes], bool]) -> No
         raise Error(f"refusing submodule with unsafe path: {path!r}")
 
 
+def _check_submodule_path_not_symlink(repo_path: str, path: bytes) -> None:
+    """Refuse a submodule path that leads through a symbolic link.
+
+    The name checks only look at the path. A symlink already present in the
+    work tree at the submodule path, or at one of its leading components
+    (left by an earlier checkout), would make the clone and the checkout of
+    the submodule land wherever the link points, outside the work tree or
+    inside ``.git``. git refuses: "expected submodule path not to be a
+    symbolic link".
+
+    Args:
+      repo_path: Root of the work tree.
+      path: Submodule path as it appears in the tree gitlink entry.
+
+    Raises:
+      Error: If a component of the path is a symbolic link.
+    """
+    import stat
+
+    from . import Error
+
+    full_path = os.fsencode(repo_path)
+    for component in path.split(b"/"):
+        full_path = os.path.join(full_path, component)
+        try:
+            st = os.lstat(full_path)
+        except FileNotFoundError:
+            return
+        if stat.S_ISLNK(st.st_mode):
+            raise Error(f"refusing submodule path through a symbolic link: {path!r}")
+
+
 def submodule_list(repo: "RepoPath") -> Iterator[tuple[str, str]]:
     """List submodules.
 
@@ -173,6 +205,7 @@ def submodule_update(
                 path.decode(DEFAULT_ENCODING) if isinstance(path, bytes) else path
             )
             if paths is None or path_str in paths:
+                _check_submodule_path_not_symlink(r.path, path)
                 submodules_to_update.append((path, sha))
 
         # Read submodule configuration
